@@ -33,7 +33,7 @@ def run(rep):
     rep.trusted = ["rustc nightly MIR construction and type checking", "cargo feature resolution", "bytes::Buf contract (chunk() non-empty when remaining() > 0)",
                    "tables/c07.toml (frozen sibling pairings and reasoned exceptions)"]
     rep.assumptions = ["KeyTagImpl is sealed (witness W1): the 10 impls are the whole set", "UTF-8 validation is the one tolerated difference between skip and decode"]
-    fdir = engine.ensure_facts("ws")
+    fdir = engine.ensure_facts(engine.config_for("C07"))
     prog = mir.Program(fdir, crates=["aldrin_core"])
     tab = tomllib.load(open(os.path.join(engine.VERIF, "tables", "c07.toml"), "rb"))
     S = sig.Sig(prog, codec.codec_classify)
